@@ -162,12 +162,15 @@ class Unit:
             # closures may repeat paths; keep first, store all in list
             self.fns.setdefault(f["path"], f)
         self.fn_list = data["fns"]
+        self.norm = {}
+        for f in data["fns"]:
+            self.norm.setdefault(norm_path(f["path"]), f)
         self.adts = {a["path"]: a for a in data["adts"]}
 
     def fn(self, suffix, optional=False):
         """Look a function up by path suffix (module moves inside the crate are tolerated)."""
-        suffix_n = suffix
-        c = [f for p, f in self.fns.items() if p == suffix_n or p.endswith("::" + suffix_n)]
+        suffix_n = norm_path(suffix)
+        c = [f for p, f in self.norm.items() if p == suffix_n or p.endswith("::" + suffix_n)]
         c = [f for f in c if f.get("dk") != "Closure"]
         if len(c) == 1:
             return c[0]
@@ -996,7 +999,7 @@ class MirFn:
         bb, kind, node = ds[0]
         if kind == "call":
             return ("call", mir_callee(node) or ("indirect", self.sym_op(node["f"].get("indirect"), depth + 1)),
-                    tuple(self.sym_op(a, depth + 1) for a in node["args"]))
+                    tuple(self.sym_op(a, depth + 1) for a in node["args"]), tuple(node["f"].get("ga") or ()))
         return self.sym_rv(node["rv"], depth + 1)
 
     def sym_op(self, op, depth=0):
@@ -1151,3 +1154,69 @@ def sym_is_arg(s_, idx=None):
     while isinstance(s_, tuple) and ((s_[0] == "proj" and s_[2] == "*") or s_[0] in ("ref", "rawref", "ptrcast")):
         s_ = s_[1]
     return isinstance(s_, tuple) and s_[0] == "arg" and (idx is None or s_[1] == idx)
+
+
+ROOT_PEEL_CALLS = ("ManuallyDrop<T> as core::ops::deref::Deref>::deref", "ManuallyDrop<T> as core::ops::deref::DerefMut>::deref_mut",
+                   "manually_drop::ManuallyDrop::new", "option::Option::unwrap", "::as_mut", "::as_ref")
+
+
+def sym_root(s_):
+    """The object a place/pointer expression is derived from (peels derefs, fields are NOT peeled)."""
+    while isinstance(s_, tuple):
+        if s_[0] == "proj" and s_[2] == "*":
+            s_ = s_[1]
+        elif s_[0] in ("ref", "rawref", "ptrcast"):
+            s_ = s_[1]
+        elif s_[0] == "call" and isinstance(s_[1], str) and s_[1].endswith(ROOT_PEEL_CALLS) and s_[2]:
+            s_ = s_[2][0]
+        else:
+            break
+    return s_
+
+
+def sym_field_of(s_):
+    """If s_ denotes <root>.<field> return (root, field) with root peeled, else None."""
+    s_ = sym_root(s_)
+    if isinstance(s_, tuple) and s_[0] == "proj" and s_[2].startswith("."):
+        return sym_root(s_[1]), s_[2][1:]
+    return None
+
+
+def sym_walk(s_):
+    """All sub-terms of a symbolic value (pre-order)."""
+    st = [s_]
+    while st:
+        x = st.pop()
+        if isinstance(x, tuple):
+            if x and isinstance(x[0], str):
+                yield x
+                for y in x[1:]:
+                    if isinstance(y, tuple):
+                        st.append(y)
+            else:
+                for y in x:
+                    if isinstance(y, tuple):
+                        st.append(y)
+
+
+def sym_leaves(s_):
+    """Leaf atoms (args, locals, phis, consts, fns) a term is built from."""
+    out = set()
+    for x in sym_walk(s_):
+        if x[0] in ("arg", "local", "phi"):
+            out.add((x[0], x[1]))
+        elif x[0] in ("const", "fn"):
+            out.add((x[0], x[1]))
+    return out
+
+
+def sym_peel(s_):
+    """Peel references, raw borrows, pointer casts and derefs (value-preserving address plumbing)."""
+    while isinstance(s_, tuple):
+        if s_[0] in ("ref", "rawref", "ptrcast"):
+            s_ = s_[1]
+        elif s_[0] == "proj" and s_[2] == "*":
+            s_ = s_[1]
+        else:
+            break
+    return s_
